@@ -50,6 +50,9 @@ fn dump_of(text: &str) -> Option<String> {
   if es.has_errors() { None } else { Some(synt::dump_module(&heap, &m)) }
 }
 
+/// not lower identifiers (`[a-z][A-Za-z0-9]*`): each fails the start rule, the character rule, or both
+const INVALID_NEW_NAMES: [&str; 12] = ["", " ", "a_b", "a-b", "a b", "a+n", "x;", "a\u{e9}", "3", "Abc", "_", "$x"];
+
 fn main() {
   let run = Run::from_args("C15", "exploration");
   if let Some(path) = run.replay.clone() {
@@ -83,6 +86,7 @@ fn main() {
 
   let evaluated = AtomicU64::new(0);
   let renames = AtomicU64::new(0);
+  let invalid_renames = AtomicU64::new(0);
   let kinds_seen: Mutex<BTreeMap<&'static str, u64>> = Mutex::new(BTreeMap::new());
   let samples: Mutex<Vec<Value>> = Mutex::new(vec![]);
   let distinct: Mutex<HashSet<(String, L)>> = Mutex::new(HashSet::new());
@@ -215,6 +219,23 @@ fn main() {
               state.update(vec![(mr, original_text.clone())]);
             }
           }
+          // requested names that are not identifiers: the request is refused, or - if a document
+          // comes back - it is still a well-formed program with the same diagnostics
+          for bad in INVALID_NEW_NAMES {
+            invalid_renames.fetch_add(1, Ordering::Relaxed);
+            if let Some(renamed) = rewrite::rename(&mut state, &mr, p, bad) {
+              if dump_of(&renamed).is_none() {
+                report("rename-to-invalid-name-breaks-document".into(), format!("rename to {bad:?} returned a document with syntax errors: {:?}", renamed.chars().take(200).collect::<String>()));
+              } else {
+                state.update(vec![(mr, renamed.clone())]);
+                let n_new = rendered_errors_of(&state, &mr).len();
+                if n_new != original_errors.len() {
+                  report("rename-to-invalid-name-changes-diagnostics".into(), format!("rename to {bad:?} returned a document with {n_new} diagnostics (before: {})", original_errors.len()));
+                }
+                state.update(vec![(mr, original_text.clone())]);
+              }
+            }
+          }
           let mut sp = samples.lock().unwrap();
           if sp.len() < 300 {
             sp.push(json!({"program": prog.name, "module": tname, "occurrence": occ_desc, "group_size": want_refs.len()}));
@@ -235,6 +256,7 @@ fn main() {
       "rule": "every binding occurrence and every use of every local variable / parameter (parameters, let, tuple/struct/variant/or patterns, if-let, match arms, lambda parameters, captured variables) found by an independent lexical resolver in corpus/bind/* (each a runnable program) and in the tests/ modules (12 smallest quick / all thorough); 3 query columns per occurrence for definition/references, one rename + re-check + (corpus/bind) execution + rename back; distinct = distinct (module, occurrence)",
       "samples": spaced_samples(&pool, 8),
       "renames_performed": renames.load(Ordering::Relaxed),
+      "rename_requests_with_invalid_names": invalid_renames.load(Ordering::Relaxed),
       "occurrences_per_binding_kind": kinds_seen.lock().unwrap().clone(),
       "programs": programs.len(),
       "exhaustive": true,
